@@ -101,6 +101,8 @@ class PanelRef:
             sec.b = sec.r * bbot / rbot
             sec.X = {key: v[0][k][:self.m, :self.m] for key, v in tabs.items()}
             sec.Xscale = {key: v[1][k][:self.m, :self.m] for key, v in tabs.items()}
+            # the kernel's own floating-point section limits: x1 = a*section/s; xi1 = 2*x1/a - 1
+            sec.xsec = (2 * (self.a * float(k) / nsec) / self.a - 1., 2 * (self.a * float(k + 1) / nsec) / self.a - 1.)
             out.append(sec)
         return out
 
@@ -134,6 +136,37 @@ class PanelRef:
         sv.fx = {k: np.abs(v) for k, v in self.fx.items()}
         sv.fy = {k: np.abs(v) for k, v in self.fy.items()}
         return sv.bilinear(terms)
+
+    # ------------------------------------------------------------------ variants used by the two-tier comparison
+    def uses_subinterval_tables(self):
+        return (self.eta1, self.eta2) != (-1.0, 1.0) or self.Xscale is not None
+
+    def with_package_tables(self):
+        """Copy whose sub-interval (y) and section (x) tables are the values returned by the package's own integral_*_12 functions."""
+        sv = PanelRef.__new__(PanelRef)
+        sv.__dict__.update(self.__dict__)
+        if (self.eta1, self.eta2) != (-1.0, 1.0):
+            pk = rb.package_tables(self.eta1, self.eta2)
+            sv.Y = {k: v[:self.n, :self.n] for k, v in pk.items()}
+            sv.Yscale = {k: np.abs(v) for k, v in sv.Y.items()}
+        if getattr(self, 'xsec', None) is not None:
+            pk = rb.package_tables(*self.xsec)
+            sv.X = {k: v[:self.m, :self.m] for k, v in pk.items()}
+            sv.Xscale = {k: np.abs(v) for k, v in sv.X.items()}
+        return sv
+
+    def natural(self):
+        """Copy whose tables are the natural (Cauchy-Schwarz) scales of the entries and whose flags are absolute values: bilinear()
+        then gives, per matrix entry, the magnitude a backward-stable evaluation of the integrals is accurate relative to."""
+        sv = PanelRef.__new__(PanelRef)
+        sv.__dict__.update(self.__dict__)
+        sv.X = rb.norm_table(self.X)
+        sv.Y = rb.norm_table(self.Y)
+        sv.Xscale = dict(sv.X) if self.Xscale is not None else None
+        sv.Yscale = dict(sv.Y)
+        sv.fx = {k: np.abs(v) for k, v in self.fx.items()}
+        sv.fy = {k: np.abs(v) for k, v in self.fy.items()}
+        return sv
 
     def scale_of(self, terms):
         sv = PanelRef.__new__(PanelRef)
